@@ -222,18 +222,22 @@ theorem C05App_released_caller_returns (a : ACfg) (s : St) (u : Nat)
     alive2 ((step a s (.run (.W u))).astatus (.W u)) = false := by
   simp [step, runnable2, hW, stepRun2, hp, St.finish2, St.emit2, alive2]
 
-/-- **No handler is left inside `close()` (partial).** If no application message callback awaits `close()` in its body, then in no
+/-- **No handler is left inside `close()` (partial).** If no application message callback awaits `close()` in its body (at once or
+    after some work), then in no
     reachable state is the second dispatcher suspended inside a `close()` call of a message callback — the situation in which
     that call ends with `CancelledError` (the known finding C05-app-close-from-message-callback, `Witness/C05App.lean`); and
     with the repaired order (`closedFirst`) no message callback is ever suspended in the `close()` of its cancellation clean-up.
     Full statement (false of the code, see the witness): "every `await app.close()` returns normally". -/
 theorem C05App_no_handler_inside_close_partial (a : ACfg) (evs : List Ev) :
-    ((∀ v, a.msgBeh v ≠ .close) → ∀ v, ¬ ((reach a evs).aprog .D2 = .handlerClose v ∧ alive2 ((reach a evs).astatus .D2) = true)) ∧
+    ((∀ v, a.msgBeh v ≠ .close ∧ ∀ k, a.msgBeh v ≠ .awaitClose k) →
+      ∀ v, ¬ ((reach a evs).aprog .D2 = .handlerClose v ∧ alive2 ((reach a evs).astatus .D2) = true)) ∧
     (a.closedFirst = true → ∀ v, ¬ ((reach a evs).aprog .D2 = .cleanupClose v ∧ alive2 ((reach a evs).astatus .D2) = true)) := by
   have i := runEvs_Inv a evs
   constructor
   · intro hnc v ⟨h1, h2⟩
-    exact hnc v (i.ss.hc v h1 h2)
+    rcases i.ss.hc v h1 h2 with h | ⟨k, h⟩
+    · exact (hnc v).1 h
+    · exact (hnc v).2 k h
   · intro hcf v ⟨h1, h2⟩
     have := i.ss.cc v h1 h2
     rw [hcf] at this; contradiction
